@@ -66,6 +66,9 @@ class StepOps:
         r = self.ctx.pkg.resolve_expr_global(self.module, func_node)
         return r.qual.split(".")[-1] if r.kind in ("stdlib", "builtin", "lib") else norm(func_node).split(".")[-1]
 
+    def _resolved_kind(self, func_node) -> str:
+        return self.ctx.pkg.resolve_expr_global(self.module, func_node).kind
+
     def _lib_unit(self, func_node):
         try:
             fv = self.ctx.vals.expr(self.unit, func_node, None)
@@ -308,6 +311,14 @@ class StepOps:
         return UNKNOWN
 
     def raises(self, node: Node, env):
+        if node.kind == "call" and isinstance(node.ast, ast.Call) and len(node.ast.args) == 1 and not node.ast.keywords \
+                and self._resolved(node.ast.func) == "next" and self._resolved_kind(node.ast.func) in ("builtin", "stdlib"):
+            # the builtin next() on an exhausted synchronous iterator raises right here, at the call
+            it = self.ev.eval(node.ast.args[0], env)
+            if isinstance(it, tuple) and it[:1] == ("IT",) and env.get("@itpos", {}).get(it[1], 0) >= self.lengths[it[1]]:
+                self._trace(env, "poll", it[1])
+                return ("exc", "StopIteration")
+            return None
         if node.kind == "await":
             call = node.info.get("value")
             v = env.get("@callvals", {}).get(id(call)) if isinstance(call, ast.Call) else None
@@ -324,7 +335,8 @@ class StepOps:
 
     def next(self, node, env):
         src = self.ev.eval(node.info.get("iter"), env)
-        if node.kind == "pull" and self._is_iter(src):
+        if self._is_iter(src):
+            # ``async for`` over an iterator object, or a plain ``for`` over a synchronous one
             v = self._pull(src, env)
             return STOP if isinstance(v, tuple) and v[:1] == ("@raise",) else v
         el = self._elements(src, env)  # (a list is read live: a slot replaced during the loop is seen)
@@ -364,7 +376,13 @@ class StepOps:
         f = call.func
         last = self._resolved(f)
         result: Any = "@none"
-        if last == "anext" and call.args and all(k.arg == "default" for k in call.keywords):
+        if last == "next" and call.args and not call.keywords and self._resolved_kind(f) in ("builtin", "stdlib"):
+            it = ev.eval(call.args[0], env)
+            if self._is_iter(it):
+                result = self._pull(it, env)
+                if isinstance(result, tuple) and result[:1] == ("@raise",):
+                    result = ev.eval(call.args[1], env) if len(call.args) == 2 else ("@raise", "StopIteration")
+        elif last == "anext" and call.args and all(k.arg == "default" for k in call.keywords):
             it = ev.eval(call.args[0], env)
             if self._is_iter(it):
                 result = self._pull(it, env)
